@@ -1942,13 +1942,32 @@ pub fn exec_one_from_stdin() -> i32 {
 }
 
 pub fn run_isolated(scn: &Scn) -> RunReport {
+    // natively first; a history that the native worker survives is run again under the
+    // AddressSanitizer build (when ./check built one), which is where the batch found the
+    // sanitizer-only failures, so that their replay files reproduce
+    let native = std::env::var("TSIM_MEM_EXE").ok().map(std::path::PathBuf::from).or_else(|| std::env::current_exe().ok()).unwrap_or_default();
+    let rep = run_isolated_with(scn, &native);
+    if rep.failure.is_some() || std::env::var("TSIM_MEM_EXE").is_ok() {
+        return rep;
+    }
+    let asan = std::env::current_exe().ok().and_then(|e| e.parent().and_then(|p| p.parent()).and_then(|p| p.parent()).map(|p| p.join("target-asan/x86_64-unknown-linux-gnu/release/tsim")));
+    match asan {
+        Some(a) if a.exists() && a != native => {
+            let r2 = run_isolated_with(scn, &a);
+            if r2.failure.is_some() { r2 } else { rep }
+        }
+        _ => rep,
+    }
+}
+
+fn run_isolated_with(scn: &Scn, exe: &std::path::Path) -> RunReport {
     use std::io::Write;
     let mut rep = RunReport::default();
-    let exe = std::env::var("TSIM_MEM_EXE").ok().map(std::path::PathBuf::from).or_else(|| std::env::current_exe().ok()).unwrap_or_default();
     let mut inner = scn.clone();
     inner.isolated = false;
     let json = serde_json::to_string(&inner).unwrap_or_default();
-    let child = std::process::Command::new(&exe)
+    let child = std::process::Command::new(exe)
+        .env("ASAN_OPTIONS", "detect_leaks=0:abort_on_error=0:exitcode=99")
         .arg("c17-exec-one")
         .stdin(std::process::Stdio::piped())
         .stdout(std::process::Stdio::piped())
